@@ -92,14 +92,97 @@ theorem spanVertCount_of_tetOn {k : Kernel} {hfs : List Nat} {p q r s : Nat} (hT
     (hl : ∀ hf ∈ hfs, Loop3 k (k.hfHes hf)) : k.spanVertCount hfs = 4 :=
   spanVertCount_eq hl hT.1 hT.mem_verts
 
-/-- the tet override of `add_cell(halffaces)` on four stored halffaces of a `FaceLoops` mesh that span four vertices is
-    the base `add_cell` -/
+def prsN (u v w : Nat) : List (Nat × Nat) := [(u, v), (v, w), (w, u)]
+
+theorem loop3_elim {k : Kernel} {l : List Nat} (h : Loop3 k l) :
+    ∃ x y z, l = [x, y, z] ∧ k.toV x = k.fromV y ∧ k.toV y = k.fromV z ∧ k.toV z = k.fromV x := by
+  unfold Loop3 at h
+  split at h
+  · rename_i x y z; exact ⟨x, y, z, rfl, h⟩
+  · exact absurd h id
+
+theorem pairs_of_loop {k : Kernel} {x y z : Nat} (l1 : k.toV x = k.fromV y) (l2 : k.toV y = k.fromV z)
+    (l3 : k.toV z = k.fromV x) :
+    [x, y, z].map (fun h => (k.fromV h, k.toV h)) = prsN (k.fromV x) (k.fromV y) (k.fromV z) := by
+  simp only [List.map_cons, List.map_nil, prsN, l1, l2, l3]
+
+theorem nodup_flatMap_of {α β} (f : α → List β) : ∀ l : List α, (∀ x ∈ l, (f x).Nodup) →
+    l.Pairwise (fun x y => ∀ z ∈ f x, z ∉ f y) → (l.flatMap f).Nodup := by
+  intro l
+  induction l with
+  | nil => intro _ _; simp
+  | cons a t ih =>
+    intro h1 h2
+    have h2' := List.pairwise_cons.mp h2
+    simp only [List.flatMap_cons]
+    rw [List.nodup_append]
+    refine ⟨h1 a (by simp), ih (fun x hx => h1 x (List.mem_cons_of_mem _ hx)) h2'.2, ?_⟩
+    intro x hx y hy e
+    obtain ⟨b, hb, hyb⟩ := List.mem_flatMap.mp hy
+    exact h2'.1 b hb x hx (e ▸ hyb)
+
+/-- the ordered vertex pairs of the halfedges of a closed triangle are the consecutive pairs of its vertex cycle -/
+theorem pair_consec {k : Kernel} {hf : Nat} (hl : Loop3 k (k.hfHes hf)) {a b : Nat}
+    (h : (a, b) ∈ (k.hfHes hf).map (fun h => (k.fromV h, k.toV h))) : Consec (k.hfVerts hf) a b := by
+  obtain ⟨x, y, z, e, l1, l2, l3⟩ := loop3_elim hl
+  unfold hfVerts
+  rw [e] at h ⊢
+  rw [pairs_of_loop l1 l2 l3] at h
+  simp only [prsN, List.mem_cons, List.not_mem_nil, or_false, Prod.mk.injEq] at h
+  simp only [List.map_cons, List.map_nil, Consec]
+  exact h
+
+/-- the twelve halfedges of a tetrahedron with closed triangular faces run through twelve different ordered vertex pairs
+    (the guard 4614b67 of `add_cell(halffaces)` accepts every tetrahedron) -/
+theorem noParallel_of_tetOn {k : Kernel} {hfs : List Nat} {p q r s : Nat} (hT : TetOn k hfs p q r s)
+    (hl : ∀ hf ∈ hfs, Loop3 k (k.hfHes hf)) : k.noParallel hfs = true := by
+  unfold noParallel
+  rw [decide_eq_true_eq, List.map_flatMap]
+  apply nodup_flatMap_of
+  · intro hf hm
+    obtain ⟨x, y, z, e, l1, l2, l3⟩ := loop3_elim (hl hf hm)
+    rw [e, pairs_of_loop l1 l2 l3]
+    obtain ⟨t, ht, hr⟩ := hT.2.2.2.1 hf hm
+    have hn : (k.hfVerts hf).Nodup := by
+      have tn := tris_nodup p q r s hT.1 t ht
+      have l3' := tris_length p q r s t ht
+      match t, l3', hr, tn with
+      | [x', y', z'], _, hr, tn =>
+        rcases (rot_three _ x' y' z').mp hr with e' | e' | e' <;> rw [e'] <;> simp_all <;> omega
+    unfold hfVerts at hn
+    rw [e] at hn
+    simp only [List.map_cons, List.map_nil, List.nodup_cons, List.mem_cons, List.not_mem_nil, or_false, not_or,
+      List.nodup_nil, and_true] at hn
+    simp only [prsN, List.nodup_cons, List.mem_cons, List.not_mem_nil, or_false, not_or, List.nodup_nil, and_true,
+      Prod.mk.injEq, not_and]
+    obtain ⟨⟨h1, h2⟩, h3, _⟩ := hn
+    exact ⟨⟨fun e1 _ => h1 e1, fun e1 _ => h2 e1⟩, fun e1 _ => h3 e1, not_false⟩
+  · have hnd : hfs.Pairwise (· ≠ ·) := hT.2.2.1
+    refine hnd.imp_of_mem ?_
+    intro hf hf' hm hm' hne z hz hz'
+    obtain ⟨a, b⟩ := z
+    have c1 := pair_consec (hl hf hm) hz
+    have c2 := pair_consec (hl hf' hm') hz'
+    obtain ⟨t, ht, hr⟩ := hT.2.2.2.1 hf hm
+    obtain ⟨t', ht', hr'⟩ := hT.2.2.2.1 hf' hm'
+    have l3 : (k.hfVerts hf).length = 3 := by rw [hr.length]; exact tris_length p q r s t ht
+    have l3' : (k.hfVerts hf').length = 3 := by rw [hr'.length]; exact tris_length p q r s t' ht'
+    have := tris_consec_unique p q r s hT.1 ht ht' (consec_of_rot hr l3 c1) (consec_of_rot hr' l3' c2)
+    subst this
+    exact hne (hT.2.2.2.2.2 hf hm hf' hm' t ht hr hr')
+
+theorem noParallel_of_eq {k k' : Kernel} (he : k'.edges = k.edges) (hf : k'.faces = k.faces) (hfs : List Nat) :
+    k'.noParallel hfs = k.noParallel hfs := by
+  unfold noParallel hfHes faceAt fromV toV halfedge edgeAt; rw [he, hf]
+
+/-- the tet override of `add_cell(halffaces)` on four stored halffaces of a `FaceLoops` mesh that span four vertices and
+    have no parallel halfedges is the base `add_cell` -/
 theorem tetAddCell_eq {k : Kernel} (hl : FaceLoops k) {hfs : List Nat} (h4 : hfs.length = 4) (hh : ∀ hf ∈ hfs, hf < k.nHF)
-    (hs : k.spanVertCount hfs = 4) (chk : Bool) : k.tetAddCell hfs chk = k.addCell hfs chk := by
+    (hs : k.spanVertCount hfs = 4) (hp : k.noParallel hfs = true) (chk : Bool) : k.tetAddCell hfs chk = k.addCell hfs chk := by
   unfold tetAddCell
   have : (hfs.any fun hf => (k.faceAt (eOf hf)).length != 3) = false := by
     rw [List.any_eq_false]; intro x hx; simp [faceAt_length_of_loops hl (hh x hx)]
-  simp [h4, this, hs]
+  simp [h4, this, hs, hp]
 
 theorem cellAt_new (k : Kernel) (hfs : List Nat) : (k.addCellCore hfs).cellAt k.nC = hfs := by
   unfold cellAt; rw [addCellCore_cells]; simp [nC]
@@ -177,7 +260,8 @@ theorem tetAddCell4_isTet {k : Kernel} (h : BInv k) {v0 v1 v2 v3 : Nat} (o0 : VO
     · exact od.1
   have hT4 := tetOn_of_cell4 hd ra rb rc rd
   have hs4 := spanVertCount_of_tetOn hT4 (loops_of_hfOk b4.loops hh)
-  rw [tetAddCell_eq b4.loops rfl hh hs4] at hc ⊢
+  have hp4 := noParallel_of_tetOn hT4 (loops_of_hfOk b4.loops hh)
+  rw [tetAddCell_eq b4.loops rfl hh hs4 hp4] at hc ⊢
   unfold addCell at hc ⊢
   split at hc
   · rename_i hacc
@@ -215,7 +299,8 @@ theorem tetAddCell4_allTet {k : Kernel} (h : BInv k) (ht : AllTet k) {v0 v1 v2 v
       · exact od.1
     have hn : k4.nC = k.nC := by unfold nC; rw [x4.cells]
     have hs4 := spanVertCount_of_tetOn (tetOn_of_cell4 hd ra rb rc rd) (loops_of_hfOk b4.loops hh)
-    rw [e, tetAddCell_eq b4.loops rfl hh hs4] at hc hi ⊢
+    have hp4 := noParallel_of_tetOn (tetOn_of_cell4 hd ra rb rc rd) (loops_of_hfOk b4.loops hh)
+    rw [e, tetAddCell_eq b4.loops rfl hh hs4 hp4] at hc hi ⊢
     unfold addCell at hc hi ⊢
     split at hc
     · rename_i hacc
@@ -232,7 +317,8 @@ theorem tetAddCell4_allTet {k : Kernel} (h : BInv k) (ht : AllTet k) {v0 v1 v2 v
       · exact oc.1
       · exact od.1
     have hs4 := spanVertCount_of_tetOn (tetOn_of_cell4 hd ra rb rc rd) (loops_of_hfOk b4.loops hh)
-    rw [e, tetAddCell_eq b4.loops rfl hh hs4] at hc ⊢
+    have hp4 := noParallel_of_tetOn (tetOn_of_cell4 hd ra rb rc rd) (loops_of_hfOk b4.loops hh)
+    rw [e, tetAddCell_eq b4.loops rfl hh hs4 hp4] at hc ⊢
     unfold addCell at hc ⊢
     split at hc
     · cases hc
